@@ -59,6 +59,10 @@ MUTANTS = [
     ("Indexer::save writes the pending file unconditionally", sub1("index/indexer.rs", r"if \(self\.file\.packs\.len\(\) \+ self\.file\.packs_to_delete\.len\(\)\) > 0 \{\s*(_ = self\.be\.save_file\(&self\.file\)\?;)\s*\}", r"\1")),
     ("TreeModifier::finalize flushes also in dry-run", sub1("blob/tree/modify.rs", r"pub fn finalize\(self\) -> RusticResult<\(\)> \{\s*if !self\.dry_run \{(.*?)\}\s*Ok\(\(\)\)", r"pub fn finalize(self) -> RusticResult<()> {\1Ok(())")),
     ("repair_index: indexer.add_with outside the dry-run test (seeded C15-2)", sub1("commands/repair/index.rs", r"if !dry_run \{\s*(?://[^\n]*\n\s*)?(indexer\.write\(\)\.unwrap\(\)\.add_with\(pack, false\)\?;)\s*\}", r"\1")),
+    ("backup: stdin branch rebuilds the options from Default, dry_run dropped (seeded C15-4)", sub1("commands/backup.rs", r"let mut opts = opts\.clone\(\);\s*opts\.parent_opts\.force = true;", "let opts = BackupOptions { stdin_filename: opts.stdin_filename.clone(), stdin_command: opts.stdin_command.clone(), as_path: opts.as_path.clone(), no_scan: opts.no_scan, parent_opts: ParentOptions { force: true, ..opts.parent_opts.clone() }, ..BackupOptions::default() };")),
+    ("backup: stdin branch rebuilds the options but carries dry_run over (harmless)", sub1("commands/backup.rs", r"let mut opts = opts\.clone\(\);\s*opts\.parent_opts\.force = true;", "let opts = BackupOptions { stdin_filename: opts.stdin_filename.clone(), stdin_command: opts.stdin_command.clone(), dry_run: opts.dry_run, parent_opts: ParentOptions { force: true, ..opts.parent_opts.clone() }, ..BackupOptions::default() };")),
+    ("repair_hotcold: correct_missing_files called with dry_run = false", sub1("commands/repair/hotcold.rs", r"correct_missing_files\(repo, file_type, \|_\| true, dry_run\)", "correct_missing_files(repo, file_type, |_| true, false)")),
+    ("TreeModifier::save_tree queues trees also in dry-run (seeded C15-5)", sub1("blob/tree/modify.rs", r"if !self\.index\.has_tree\(&new_id\) && !self\.dry_run \{", "if !self.index.has_tree(&new_id) {")),
     ("harmless: a comment and a log line in prune", sub1("commands/prune.rs", r"let be = repo\.dbe\(\);\s*let prune_time", "let be = repo.dbe(); // c15 probe\n    info!(\"pruning\");\n    let prune_time")),
 ]
 
